@@ -843,7 +843,7 @@ func (e *Engine) applyContractSig(st *State, fr *Frame, x *ssa.Call, name string
 		if rp, ok := args[0].(VPtr); ok && rp.L != nil && rp.L.Kind == LHeap && len(rp.L.Path) == 0 {
 			for _, g := range e.guardsFor(rp.Elem) {
 				gl := g
-				if n, ok := rp.Elem.(*types.Named); ok {
+				if n, ok := types.Unalias(rp.Elem).(*types.Named); ok {
 					gl.typ = n
 				}
 				atomicObjs = append(atomicObjs, guardedObj{rp.L.Ref, gl})
@@ -868,7 +868,7 @@ func (e *Engine) applyContractSig(st *State, fr *Frame, x *ssa.Call, name string
 						}
 						for _, g := range gs {
 							gl := g
-							if n, ok := pt.Elem().(*types.Named); ok {
+							if n, ok := types.Unalias(pt.Elem()).(*types.Named); ok {
 								gl.typ = n
 							}
 							atomicObjs = append(atomicObjs, guardedObj{fv.L.Ref, gl})
